@@ -117,7 +117,9 @@ class Ctx:
             self.canaries[0] += 1
 
     def finish(self):
-        if self.canaries[0] != self.canaries[1]:
+        if self.canaries[0] != self.canaries[1] and not self.violations:
+            # (with violations present the run already fails as a violation; a broken implementation can also break
+            #  canaries that rely on it behaving per its configuration)
             raise MachineryError('binding canaries: only %d of %d corrupted events were rejected with the expected '
                                  'clause' % tuple(self.canaries))
         for f in self.known:
